@@ -388,6 +388,7 @@ class History:
         if self.mode == 'exc': fams[0] = 'bad'
         elif self.seed % 3 == 0: fams[0] = 'clk2'          # every third history has a circuit with several clock domains
         elif self.seed % 3 == 1: fams[0] = 'param'         # ... and every third a parameterised hierarchy with bound parameters
+        elif self.seed % 6 == 2: fams[0] = 'inout'         # ... and every sixth blocks with inout ports on bidirectional nets
         cseeds = [rng.randrange(10 ** 6) for _ in fams]
         self.A = [L.build(f, s) for f, s in zip(fams, cseeds)]        # the circuits of the history
         self.B = [L.build(f, s) for f, s in zip(fams, cseeds)]        # pristine copies: never simulated, never asked before
